@@ -2,6 +2,7 @@ package main
 
 import (
 	"fmt"
+	"math"
 	"reflect"
 	"sort"
 	"unsafe"
@@ -212,6 +213,17 @@ func drawWorld(g *gen.G, maxObjs, maxV int) []*ObjDesc {
 	out := make([]*ObjDesc, n)
 	for i := range out {
 		d := &ObjDesc{}
+		// later objects are usually placed on top of the first one, so that relations between
+		// objects and index targets are not trivially "far apart"
+		g.Anchor = nil
+		if i > 0 && t.Chance(650) {
+			c := out[0].Center
+			g.Anchor = &c
+			g.AnchorRadius = math.Tan(float64(out[0].Radius))
+			if g.AnchorRadius > 1 {
+				g.AnchorRadius = 1
+			}
+		}
 		switch t.Uint(3) {
 		case 0:
 			d.Kind = OLoop
@@ -231,5 +243,6 @@ func drawWorld(g *gen.G, maxObjs, maxV int) []*ObjDesc {
 		d.Center, d.Radius = centerRadius(d.Shapes)
 		out[i] = d
 	}
+	g.Anchor = nil
 	return out
 }
